@@ -250,7 +250,7 @@ def rule_ruleday(ctx, facts):
         I.contracts[POFFX] = offc('extended')
         I.return_partition[PRULE] = lambda I_, st, v: id(st)
         label = f'{PRULE}[extensions={ext}]'
-        N.run(PRULE, label=label, overrides={'string_extensions': lambda I_, st, ty, ext=ext: ('i', D.const_vid(1 if ext else 0), 'bool')}, variants=('fixed',))
+        N.run(PRULE, label=label, overrides={'string_extensions@2': lambda I_, st, ty, ext=ext: ('i', D.const_vid(1 if ext else 0), 'bool')}, variants=('fixed',))
         acc = {}
         for args, st0, outs in N.results.get(label, []):
             for st, rv in outs:
@@ -479,7 +479,7 @@ def rule_layout(ctx, facts):
             D.set_iv(st, f[1], 0, (1 << 32) - 1)
             hv[i] = f[1]
         return ('r', I_.alloc(st, v)) if ty.get('k') == 'ref' else v
-    N.run(BLOCK, overrides={'header': mk_header}, variants=('fixed',))
+    N.run(BLOCK, overrides={'header@2': mk_header}, variants=('fixed',))
     for args, st0, outs in N.results.get(BLOCK, []):
         for st, rv in outs:
             if not is_ok(rv):
